@@ -497,3 +497,61 @@ Example mstep_example :
   Qred (ms_mean 1 0 [1; 1; 1] [1; 2; 3]) = 3 # 2 /\
   Qred (ms_cov 1 (1 # 1000) (asq_axis (1 # 1000) 0 [1; 1; 1] [1; 2; 3]) 1 3 1 [1; 1; 1] [1; 2; 3]) = 2 # 3.
 Proof. vm_compute. split; reflexivity. Qed.
+
+(* ===================================================================== 8. BrainT1Segmentation.convert *)
+From NV.C13 Require Import Proofs6.
+(* convert = mixing-matrix product followed by arg-max of the MIXED row.  For a K-class
+   posterior on the simplex and a mixing matrix whose K rows are simplex points of length T
+   (the '3k', '4k', '5k' matrices, partial-volume rows, ...) the reported tissue posterior is
+   on the simplex, and the reported label is 1 + the first arg-max of the reported posterior -
+   NOT, in general, the tissue of the most probable class (convert_not_class_lookup). *)
+Theorem convert_is_simplex_and_argmax :
+  forall T row M, (0 < T)%nat -> length row = length M -> simplex row ->
+  Forall (fun m => length m = T /\ simplex m) M ->
+  let ppm := fst (convert_voxel T row M) in
+  let label := snd (convert_voxel T row M) in
+  simplex ppm /\ length ppm = T /\
+  (1 <= label <= T)%nat /\
+  (forall j, (j < T)%nat -> nth j ppm 0 <= nth (label - 1) ppm 0) /\
+  (forall j, (j < label - 1)%nat -> nth j ppm 0 < nth (label - 1) ppm 0).
+Proof.
+  intros T row M HT HL Hs HM ppm label. unfold ppm, label, convert_voxel. cbn [fst snd].
+  assert (Hlen : length (mix_row T row M) = T).
+  { apply mix_row_length. eapply Forall_impl; [|exact HM]. intros a [Ha _]. exact Ha. }
+  assert (Hne : mix_row T row M <> []) by (intros E; rewrite E in Hlen; simpl in Hlen; lia).
+  destruct (map_is_argmax _ Hne) as [A [B C]]. unfold map_from_ppm_row, map_label in *.
+  rewrite Hlen in A, B. replace (S (argmax (mix_row T row M)) - 1)%nat with (argmax (mix_row T row M)) by lia.
+  split; [apply mix_row_simplex; assumption|]. split; [exact Hlen|]. split; [lia|]. split; assumption.
+Qed.
+Print Assumptions convert_is_simplex_and_argmax.
+
+(* two sub-classes of one tissue jointly beat the single most probable class *)
+Example convert_not_class_lookup :
+  let M := [[1; 0; 0]; [0; 1; 0]; [0; 1; 0]; [0; 0; 1]] in     (* the '4k' mixing matrix *)
+  let row := [0; 3 # 10; 3 # 10; 4 # 10] in
+  map_label row = 3%nat (* class 4 = WM is the most probable class *) /\
+  snd (convert_voxel 3 row M) = 2%nat (* but the label is GM: 0.6 > 0.4 *) /\
+  map Qred (fst (convert_voxel 3 row M)) = [0; 3 # 5; 2 # 5].
+Proof. vm_compute. repeat split. Qed.
+
+(* ===================================================================== 9. dkl_gaussian *)
+(* bgmm.dkl_gaussian, with log(d1/d2) and inv(P1) as oracle values, is the textbook
+   KL(N(m1, inv P1) || N(m2, inv P2)) expression: (trace(P2 S1) - dim + (m2-m1)' P2 (m2-m1)
+   + log(det P1 / det P2)) / 2 - the Mahalanobis term weighted by the precision of the SECOND
+   density - in every commutative ring. *)
+Theorem dkl_gaussian_is_textbook :
+  forall (R : Type) (r0 r1 : R) (radd rmul rsub : R -> R -> R) (ropp : R -> R),
+  ring_theory r0 r1 radd rmul rsub ropp (@eq R) ->
+  forall half LOGR dimR dim m1 S1 m2 P2, rows_len dim P2 ->
+  dkl_gaussian_model R r0 radd rmul rsub half LOGR dimR dim m1 S1 m2 P2
+  = dkl_gaussian_textbook R r0 radd rmul rsub half LOGR dimR m1 S1 m2 P2.
+Proof. exact dkl_model_is_textbook. Qed.
+Print Assumptions dkl_gaussian_is_textbook.
+
+(* dimension one over the reals, covariance form *)
+Theorem dkl_gaussian_1d_covariance_form :
+  forall m1 m2 s1 s2 : R, (0 < s1)%R -> (0 < s2)%R ->
+  ((ln (/ (s1 * s1) / / (s2 * s2)) + / (s2 * s2) * / / (s1 * s1) - 1 + (m1 - m2) * / (s2 * s2) * (m1 - m2)) / 2
+   = ln (s2 / s1) + (s1 * s1 + (m1 - m2) * (m1 - m2)) / (2 * (s2 * s2)) - 1 / 2)%R.
+Proof. exact dkl_gaussian_1d. Qed.
+Print Assumptions dkl_gaussian_1d_covariance_form.
